@@ -36,6 +36,7 @@ type vSerKind struct {
 	read    func(idx any, r io.Reader) (int64, error)
 	holds   func(idx any, id uint32) bool // private state still mentions id
 	canon   func(idx any) string
+	train   func(idx any) error // trains an untrained index (nil for kinds that need no training)
 	hnsw    bool
 	textual bool // holds a BM25 index: flushing changes scores (not ids)
 }
@@ -240,7 +241,15 @@ func vSerVecKind(cfg vVecCfg) *vSerKind {
 			return strings.Contains(vCanonVec(idx.(VectorIndex)), fmt.Sprintf("%d:", id)) && vStoredOrCoded(idx.(VectorIndex), id)
 		},
 		canon: func(idx any) string { return vCanonVec(idx.(VectorIndex)) },
-		hnsw:  cfg.Kind == "hnsw",
+		train: func(idx any) error {
+			ts := vTrainSet(cfg.Dim, cfg.Train)
+			nodes := make([]VectorNode, len(ts))
+			for i, v := range ts {
+				nodes[i] = *NewVectorNodeWithID(uint32(1000+i), vCopyVec(v))
+			}
+			return idx.(VectorIndex).Train(nodes)
+		},
+		hnsw: cfg.Kind == "hnsw",
 	}
 }
 
@@ -676,6 +685,36 @@ func (s *vSerSys) roundTrip(h []string) {
 	}
 	s.c.Outcome(fmt.Sprint(buf.Len()))
 	if s.untrained {
+		// continuation from the untrained / empty state: train (if the kind trains),
+		// add, remove, flush on the original and on the reloaded index in lock-step
+		if s.k.train != nil {
+			s.c.Evaluations++
+			a := s.src
+			func() {
+				defer func() {
+					if r := recover(); r != nil {
+						s.c.Violation("continuation-panic", "after-untrained-reload", cfgS, h, fmt.Sprint(r))
+					}
+				}()
+				ea, eb := s.k.train(a), s.k.train(dst)
+				if (ea == nil) != (eb == nil) {
+					s.c.Violation("continuation-diverges", "train-result", cfgS, h, fmt.Sprintf("Train after reload: source %v, reloaded %v", ea, eb))
+					return
+				}
+				for step, op := range []vOp{{K: "Add", A: 1, B: 0}, {K: "Add", A: 2, B: 1}, {K: "Add", A: 3, B: 2 % s.k.nvals}, {K: "Remove", A: 2}, {K: "Flush"}} {
+					ea, eb = s.applyTo(a, op), s.applyTo(dst, op)
+					if (ea == nil) != (eb == nil) {
+						s.c.Violation("continuation-diverges", "op-result", cfgS, h, fmt.Sprintf("after untrained reload + Train, step %d %v: source %v, reloaded %v", step, op, ea, eb))
+						return
+					}
+					if d := vObsDiff(s.k.observe(a), s.k.observe(dst)); d != "" {
+						s.c.Violation("continuation-diverges", "answers", cfgS, h, fmt.Sprintf("after untrained reload + Train, step %d %v: %s", step, op, d))
+						return
+					}
+				}
+				s.c.Nontrivial(cfgS + "|untrained-continuation")
+			}()
+		}
 		return
 	}
 	// continuation: every op of the alphabet on source and reloaded in lock-step
